@@ -334,6 +334,7 @@ class ThreadedDriver(DriverBase):
         self.S = Sched()
         cfg.setdefault('async_mode', 'threading')
         self.srv = engineio.Server(**cfg)
+        self.srv.logger.setLevel(100)         # the harness observes behaviour, not log text
         drv = self
         S = self.S
 
@@ -595,6 +596,7 @@ class AsyncDriver(DriverBase):
         asyncio.set_event_loop(self.lp)
         cfg.setdefault('async_mode', 'asgi')
         self.srv = engineio.AsyncServer(**cfg)
+        self.srv.logger.setLevel(100)
         lp = self.lp
         engineio.async_socket.time = types.SimpleNamespace(time=lambda: lp.vnow)
         drv = self
